@@ -213,7 +213,7 @@ theorem core_spec (hashOf : Array UInt8 → Bool → Nat → Nat) (S : XState) (
         exact this
       simp only [Option.some.injEq] at h'
       subst h'
-      obtain ⟨l', q1, q2, q3, q4, _⟩ := rl l stf rfl
+      obtain ⟨l', q1, q2, q3, q4, q5⟩ := rl l stf rfl
       simp only [List.reverse_nil, List.nil_append] at q1
       subst q1
       have hlast : ((S.dict ++ data).extract stf.anchor (S.dict ++ data).size).toList = (S.dict ++ data).toList.drop stf.anchor := by
@@ -226,10 +226,16 @@ theorem core_spec (hashOf : Array UInt8 → Bool → Nat → Nat) (S : XState) (
         rw [Array.toList_append, List.take_append_of_le_length (by rw [Array.length_toList]; omega), List.take_of_length_le (by rw [Array.length_toList]; omega)]
       rw [htake] at hv
       rw [hlast]
-      refine ⟨_, _, rfl, (fun s hs => ?_), (by rw [← Array.toList_append]; exact hv)⟩
-      obtain ⟨x, hx, rfl⟩ := List.mem_map.mp hs
-      obtain ⟨a1, _, a3, _⟩ := q4 x hx
-      exact ⟨a1, by show x.off < 65536; omega⟩
+      refine ⟨_, _, rfl, (fun s hs => ?_), (by rw [← Array.toList_append]; exact hv), (fun s hs => ?_), ?_, ?_⟩
+      · obtain ⟨x, hx, rfl⟩ := List.mem_map.mp hs
+        obtain ⟨a1, _, a3, _⟩ := q4 x hx
+        exact ⟨a1, by show x.off < 65536; omega⟩
+      · obtain ⟨x, hx, rfl⟩ := List.mem_map.mp hs
+        exact (q4 x hx).2.1
+      · exact LZ4V.Model.FastS.endConditions_of_PV (S.dict ++ data) l S.dict.size stf.anchor q2 q3 q4 q5
+      · have := PV_covered (S.dict ++ data) l S.dict.size stf.anchor q2 q3
+        rw [Array.length_toList]
+        omega
 
 theorem compress_spec (hashOf : Array UInt8 → Bool → Nat → Nat) (S : XState) (addr : Nat) (data : Array UInt8) (acceleration : Int) (cap : Nat) (hJ : JX S) :
     JX (compress hashOf S addr data acceleration cap).1 ∧
